@@ -41,7 +41,7 @@ REQUIRED_TAGS = ['op=circle', 'op=ellipse', 'op=arc', 'op=three', 'op=ngon', 'op
                  'normal=nonunit', 'stream=exact', 'stream=float', 'spans=1', 'spans=2', 'spans=3', 'theta<0',
                  'theta=2pi', 'theta=threshold', 'raises']
 
-KNOWN_LABELS = ['three-point-arc-wrong-end', 'arc-2pi-ignores-xaxis', 'near-ez-normal-misplaced',
+KNOWN_LABELS = ['three-point-arc-wrong-end', 'three-point-arc-nan-half-turn', 'arc-2pi-ignores-xaxis', 'near-ez-normal-misplaced',
                 'volume-revolve-negative-theta-reversed', 'cylinder-height-scaled-by-axis-norm']
 
 PI_F = F(math.pi)
@@ -259,6 +259,20 @@ def generate(rng, tier):
     q = tier == 'quick'
     S = []
     rep = (lambda a, b: a if q else b)
+    # minimal reproducers of the defect classes seen on the pinned tree (one per class, first in the run)
+    S.append({'op': 'three', 'x': [[1.0, 0.0], [0.0, -1.0], [0.6, -0.8]], 'stream': 'float', 'tkind': 'sentinel'})
+    S.append({'op': 'three', 'x': [[-2.0, 0.75, 1.0], [-2.0, 0.75, 1.5], [1.75, -1.0, 1.5]], 'stream': 'float', 'tkind': 'right-angle'})
+    S.append({'op': 'arc', 'theta': 2 * pi, 'r': 1.0, 'center': [0, 0, 0], 'normal': [0, 0, 1], 'xaxis': [0.0, 1.0, 0.0],
+              'tkind': 'threshold', 'nkind': 'axis', 'stream': 'exact', 'exact': {'naux': ['1', '0', '1', '0'], 'lam': '1'}})
+    S.append({'op': 'circle', 'r': 1.0, 'type': 'p2C0', 'normal': [0.0, 2.0 ** -30, 1.0], 'xaxis': [1.0, 0.0, 0.0],
+              'center': [0, 0, 0], 'nkind': 'near-ez', 'stream': 'float'})
+    S.append({'op': 'revolve_vol', 'obj': {'bases': [{'order': 2, 'knots': [0.0, 0.0, 1.0, 1.0], 'periodic': -1}] * 2,
+                                           'cps': [[[1.0, 0.0, 0.0], [1.0, 0.0, 1.0]], [[2.0, 0.0, 0.0], [2.0, 0.0, 1.0]]],
+                                           'rational': False},
+              'theta': -1.0, 'axis': [0, 0, 1], 'nkind': 'axis', 'tkind': 'float', 'stream': 'float',
+              'exact': {'naux': ['1', '0', '1', '0']}})
+    S.append({'op': 'cylinder', 'r': 1.0, 'h': 1.0, 'center': [0, 0, 0], 'normal': [0, 0, 2], 'xaxis': [1.0, 0.0, 0.0],
+              'nkind': 'ezscaled', 'stream': 'exact', 'exact': {'naux': ['1', '0', '1', '0'], 'lam': '1'}})
     # helpers
     for _ in range(rep(40, 400)):
         s = placed(rng, {'op': 'local_x'})
@@ -289,13 +303,13 @@ def generate(rng, tier):
         s.pop('xaxis')
         (s.get('exact') or {}).pop('lam', None)
         S.append(s)
-    for _ in range(rep(140, 1500)):
+    for _ in range(rep(200, 1500)):
         S.append(placed(rng, {'op': 'circle', 'r': gen_radius(rng), 'type': rng.choice(['p2C0', 'p4C1', 'p2C0', 'C0p2', 'c1p4', 'P4c1'])},
                         allow2d=True))
     for _ in range(rep(60, 600)):
         S.append(placed(rng, {'op': 'ellipse', 'r1': gen_radius(rng), 'r2': gen_radius(rng), 'type': rng.choice(['p2C0', 'p4C1'])},
                         allow2d=True))
-    for _ in range(rep(220, 2500)):
+    for _ in range(rep(320, 2500)):
         th, arc, lab = gen_theta(rng)
         s = placed(rng, {'op': 'arc', 'theta': th, 'r': gen_radius(rng), 'tkind': lab}, allow2d=True)
         if arc is not None:
@@ -307,8 +321,12 @@ def generate(rng, tier):
     for nrm, xa in [([0.0, 2.0 ** -30, 1.0], [1.0, 0.0, 0.0]), ([2.0 ** -30, 2.0 ** -30, 1.0], [1.0, -1.0, 0.0])]:
         S.append({'op': 'circle', 'r': 1.0, 'type': 'p2C0', 'normal': nrm, 'xaxis': xa, 'center': [0, 0, 0],
                   'nkind': 'near-ez', 'stream': 'float'})
-    for _ in range(rep(150, 2500)):
+    for _ in range(rep(250, 2500)):
         S.append({'op': 'three', 'x': gen_triple(rng, tier), 'stream': 'float'})
+    # right angle at x1 (x0, x2 antipodal on the circumcircle: theta = pi)
+    for P in ([[-2.0, 0.75, 1.0], [-2.0, 0.75, 1.5], [1.75, -1.0, 1.5]], [[0.0, 0.0], [0.0, 1.0], [2.0, 1.0]],
+              [[1.0, 0.0, 0.0], [0.0, 0.0, 3.0], [-1.0, 0.0, 0.0]]):
+        S.append({'op': 'three', 'x': P, 'stream': 'float', 'tkind': 'right-angle'})
     # error branches
     S.append(placed(rng, {'op': 'circle', 'r': 0.0, 'type': 'p2C0'}, 'axis'))
     S.append(placed(rng, {'op': 'circle', 'r': -1.0, 'type': 'p4C1'}, 'exact'))
@@ -562,6 +580,11 @@ def compare(s, iv, mv):
         return 'model returned %r' % (mv,)
     ib, ish, ifl, irat = iv
     mb, msh, mfl, mrat = mv
+    ktol, rtol = KTOL, RTOL
+    if s['op'] == 'three' and abs(_three_aux(s)[1] - pi) < 1e-6:
+        # x0, x2 antipodal: arccos near -1 is accurate to sqrt(eps) only and theta / 2pi-theta are both ~pi
+        # (the code's sign test then looks at a rounding-noise vector); compare at that accuracy
+        ktol = rtol = 1e-6
     if len(ib) != len(mb):
         return 'number of bases: impl %d model %d' % (len(ib), len(mb))
     for k, (x, y) in enumerate(zip(ib, mb)):
@@ -571,11 +594,11 @@ def compare(s, iv, mv):
             return 'basis %d: knot count impl %d model %d' % (k, len(x[1]), len(y[1]))
         sc = max([1.0] + [abs(float(t)) for t in y[1]])
         for i, (a, b) in enumerate(zip(x[1], y[1])):
-            if not abs(a - float(b)) <= KTOL * sc:
+            if not abs(a - float(b)) <= ktol * sc:
                 return 'basis %d knot %d: impl %.17g model %.17g' % (k, i, a, float(b))
     if [int(t) for t in msh] != list(ish):
         return 'shape impl %s model %s' % (ish, [int(t) for t in msh])
-    d = diff(ifl, mfl, RTOL, ATOL, path='$cps')
+    d = diff(ifl, mfl, rtol, ATOL, path='$cps')
     if d:
         return d
     if str(mrat) != ('true' if irat else 'false'):
@@ -677,6 +700,9 @@ def oracle(sp, s):
 def _oracle_raise(s, e):
     if s.get('raises'):
         return []
+    if s['op'] == 'three' and 'NaN' in str(e):
+        # arccos argument rounds outside [-1,1] when x0 and x2 are antipodal (right angle at x1)
+        return ['[three-point-arc-nan-half-turn] admissible triple (right angle at x1) raised %s: %s' % (type(e).__name__, str(e)[:80])]
     return ['admissible arguments raised %s: %s' % (type(e).__name__, str(e)[:100])]
 
 
@@ -846,13 +872,17 @@ def o_three(sp, s, c):
     a, e = _pad(c(c.start(0)))[0], _pad(c(c.end(0)))[0]
     if not np.linalg.norm(a - p[0]) <= RTOL * sc:
         f.append('three-point arc: starts at %s, not at x0' % a.tolist())
+    v0, v2 = p[0] - ctr, p[2] - ctr
+    half = np.linalg.norm(v0 + v2) < 1e-6 * r     # x0, x2 antipodal: arccos is accurate to sqrt(eps) only
+    lab = '[three-point-arc-nan-half-turn] ' if half else '[three-point-arc-wrong-end] '
+    bad_end = False
     if not np.linalg.norm(e - p[2]) <= RTOL * sc:
-        f.append('[three-point-arc-wrong-end] three-point arc: ends at %s, not at x2 = %s (distance %.3g)' % (
-            e.tolist(), p[2].tolist(), np.linalg.norm(e - p[2])))
+        bad_end = True
+        f.append('%sthree-point arc: ends at %s, not at x2 = %s (distance %.3g)' % (
+            lab, e.tolist(), p[2].tolist(), np.linalg.norm(e - p[2])))
     md = _min_dist(c, p[1], c.start(0), c.end(0))
     if not md <= RTOL * sc:
-        f.append('%sthree-point arc: does not pass through x1 (min distance %.3g)' % (
-            '[three-point-arc-wrong-end] ' if f and 'wrong-end' in f[-1] else '', md))
+        f.append('%sthree-point arc: does not pass through x1 (min distance %.3g)' % (lab if bad_end else '', md))
     return f
 
 
